@@ -36,7 +36,7 @@ man = {
     ],
     "checks": checks,
     "not_applicable": na,
-    "notes": "Technique family: static analysis only. Every check rebuilds the fact base from /repo's current working tree (content-hashed cache under /verif/.cache). exit 0 = clauses hold (KNOWN-FINDING lines for listed genuine defects), exit 1 + VIOLATION = an unlisted clause violation, exit 2 = check could not be evaluated (anchor missing / floor not met). No hook commits exist in /repo (hooks.source_commits is empty); the unguarded `fix:` commits in /repo (15, listed with what failed in known_findings.json under "fixed" and in DESIGN.md §8) repair genuine defects and are not hooks.",
+    "notes": "Technique family: static analysis only. Every check rebuilds the fact base from /repo's current working tree (content-hashed cache under /verif/.cache). exit 0 = clauses hold (KNOWN-FINDING lines for listed genuine defects), exit 1 + VIOLATION = an unlisted clause violation, exit 2 = check could not be evaluated (anchor missing / floor not met). No hook commits exist in /repo (hooks.source_commits is empty); the unguarded `fix:` commits in /repo (15, listed with what failed in known_findings.json under fixed and in DESIGN.md §8) repair genuine defects and are not hooks.",
 }
 json.dump(man, open(os.path.join(V, "MANIFEST.json"), "w"), indent=1)
 try:
